@@ -10,20 +10,20 @@ Lemma flat_frames {A} (h : A -> bytes) (l : list A) :
   flat_map (fun x => lenframe (h x)) l = concat (map frame (map h l)).
 Proof. induction l as [|x l IH]; cbn [flat_map map concat]; [reflexivity|]. rewrite IH. reflexivity. Qed.
 
-Lemma skip_payload : forall c, rt_ok c -> forall v idx more,
+Lemma skip_payload : forall c, rt_ok c -> top_ok c -> forall v idx more,
   wfv c v -> fits c v ->
   exists payload, enc c v (field_tag c idx) = field_tag c idx ++ payload /\
                   skip (payload ++ more) (wire c) = Ok (len payload).
 Proof.
-  intros c Hok v idx more Hw Hf.
-  destruct (tagged_enc_shape c Hok v idx Hw Hf) as [ShL ShS].
+  intros c Hok Htop v idx more Hw Hf.
+  destruct (tagged_enc_shape c Hok Htop v idx Hw Hf) as [ShL ShS].
   destruct (N.eq_dec (wire c) WTLength) as [E|E].
   - destruct (ShL E) as [Ee Hl]. eexists. split; [exact Ee|].
     rewrite E, <- app_assoc, skip_exact_length by exact Hl. rewrite len_app. reflexivity.
   - exists (enc c v []). split; [apply ShS; exact E|].
     (* self-delimiting codecs: varint, fixed, or counted slice *)
-    clear ShL ShS. revert v Hw Hf E. induction c as [ |b|b|b| | | | |compat| |c IH|c IH|nm n fs IH|c IH|c IH|c IH|c IH|kc vc IHk IHv|kc vc IHk IHv| | | ]
-      using codec_ind'; intros v Hw Hf E; cbn [rt_ok] in Hok; try contradiction;
+    clear ShL ShS. revert v Hw Hf E Htop. induction c as [ |b|b|b| | | | |compat| |c IH|c IH|nm n fs IH|c IH|c IH|c IH|c IH|kc vc IHk IHv|kc vc IHk IHv| | | ]
+      using codec_ind'; intros v Hw Hf E Htop; cbn [rt_ok] in Hok; cbn [top_ok] in Htop; try contradiction;
       try (cbn [wire] in E; unfold WTLength in E; congruence).
     + cbn [enc app wire]. rewrite skip_exact_varint; [reflexivity|]. destruct v as [[|]| | | | | | | | | | | |]; unfold two64; lia.
     + cbn [wfv] in Hw. destruct v; try contradiction. cbn [enc app wire]. unfold append_varint.
@@ -33,14 +33,26 @@ Proof.
     + cbn [enc app wire]. rewrite (skip_exact_fixed32 (le_bytes 4 _)); [rewrite len_le_bytes; reflexivity|apply len_le_bytes].
     + cbn [enc app wire]. rewrite (skip_exact_fixed64 (le_bytes 8 _)); [rewrite len_le_bytes; reflexivity|apply len_le_bytes].
     + (* CNull *) cbn [wfv] in Hw. destruct v as [ | | | | | | |valid p| | | | |]; try contradiction. destruct valid; [|contradiction].
-      cbn [enc wire fits] in *. apply IH; assumption.
+      cbn [enc wire fits] in *. destruct Hok as [Hok Ht]. apply IH; assumption.
     + (* CPtr *) cbn [wfv] in Hw. destruct v as [ | | | | | |[p|]| | | | | |]; try contradiction.
-      cbn [enc wire fits] in *. apply IH; assumption.
+      cbn [enc wire fits] in *. destruct Hok as [Hok Ht]. apply IH; assumption.
     + (* CSliceLen *)
       destruct v as [ | | | | | | | | |l| | |]; try (cbn [wfv] in Hw; contradiction).
       destruct Hf as [Hcnt Hfe]. cbn [enc app wire slice_elems].
       rewrite flat_frames, <- app_assoc.
       replace (N.of_nat (length l)) with (N.of_nat (length (map (fun x => enc c x []) l))) by (rewrite map_length; reflexivity).
+      rewrite skip_exact_slice.
+      * rewrite len_app. reflexivity.
+      * rewrite Forall_forall in *. intros b Hb. apply in_map_iff in Hb. destruct Hb as (x & <- & Hx). apply (Hfe x Hx).
+      * rewrite map_length. exact Hcnt.
+    + (* CMap *)
+      destruct v as [ | | | | | | | | | |[es|]| |]; try (cbn [wfv] in Hw; contradiction).
+      destruct Hf as [Hcnt Hfe]. cbn [map_entries_of] in Hcnt, Hfe. cbn [enc app wire].
+      change (flat_map (fun e : val * val => lenframe ((if omit kc (fst e) then [] else enc kc (fst e) (field_tag kc 1))
+                                                       ++ (if omit vc (snd e) then [] else enc vc (snd e) (field_tag vc 2)))) es)
+        with (flat_map (fun e => lenframe (entry_body kc vc e)) es).
+      rewrite flat_frames, <- app_assoc.
+      replace (N.of_nat (length es)) with (N.of_nat (length (map (fun e => entry_body kc vc e) es))) by (rewrite map_length; reflexivity).
       rewrite skip_exact_slice.
       * rewrite len_app. reflexivity.
       * rewrite Forall_forall in *. intros b Hb. apply in_map_iff in Hb. destruct Hb as (x & <- & Hx). apply (Hfe x Hx).
@@ -67,14 +79,14 @@ Section Evolve.
   (** a field of S whose index S' does not have is skipped over exactly and
       leaves the target alone *)
   Lemma unknown_field_step : forall c idx fv cur more consumed fuel,
-    rt_ok c -> (0 <= idx < 2305843009213693952)%Z -> wfv c fv -> fits c fv ->
+    rt_ok c -> top_ok c -> (0 <= idx < 2305843009213693952)%Z -> wfv c fv -> fits c fv ->
     ~ In idx (map (fun f => f_index f) fs') ->
     let e := enc c fv (field_tag c idx) in
     (length (e ++ more) < fuel)%nat ->
     struct_loop tbl' fuel (e ++ more) consumed cur = struct_loop tbl' fuel more (consumed + len e) cur.
   Proof.
-    intros c idx fv cur more consumed fuel Hok Hidx Hw Hf Hnot e Hfuel.
-    destruct (skip_payload c Hok fv idx more Hw Hf) as (payload & Ee & Hskip).
+    intros c idx fv cur more consumed fuel Hok Htop Hidx Hw Hf Hnot e Hfuel.
+    destruct (skip_payload c Hok Htop fv idx more Hw Hf) as (payload & Ee & Hskip).
     pose proof (field_tag_nonempty c idx) as Htg.
     destruct fuel as [|fuel']; [lia|].
     unfold e in *. rewrite Ee in *. rewrite <- app_assoc.
@@ -89,6 +101,79 @@ Section Evolve.
     - f_equal. rewrite !len_app. lia.
     - rewrite <- app_assoc in Hfuel. rewrite !app_length in Hfuel. unfold len in Htg. lia.
     - rewrite <- app_assoc in Hfuel. rewrite !app_length in Hfuel. lia.
+  Qed.
+
+  (** a run of length-delimited fields under one unknown index (the protobuf
+      repeated forms) is skipped frame by frame *)
+  Lemma unknown_frames : forall (bodies : list bytes) tgc idx cur more consumed fuel,
+    wire tgc = WTLength -> (0 <= idx < 2305843009213693952)%Z ->
+    ~ In idx (map (fun f => f_index f) fs') ->
+    Forall (fun b => len b < two64) bodies ->
+    let e := flat_map (fun b => field_tag tgc idx ++ lenframe b) bodies in
+    (length (e ++ more) < fuel)%nat ->
+    struct_loop tbl' fuel (e ++ more) consumed cur = struct_loop tbl' fuel more (consumed + len e) cur.
+  Proof.
+    induction bodies as [|b bodies IH]; intros tgc idx cur more consumed fuel Hwt Hidx Hnot Hall e Hfuel.
+    - unfold e. cbn [flat_map app]. rewrite len_nil, N.add_0_r. reflexivity.
+    - inversion Hall as [|? ? Hb Hall']; subst.
+      pose proof (field_tag_nonempty tgc idx) as Htg.
+      destruct fuel as [|fuel']; [lia|].
+      unfold e. cbn [flat_map]. unfold lenframe at 1. rewrite <- !app_assoc.
+      rewrite struct_loop_unfold.
+      2:{ intros E0. apply (f_equal (@length N)) in E0. rewrite app_length in E0. unfold len in Htg. cbn [length] in E0. lia. }
+      rewrite read_tag_field by exact Hidx. cbv beta iota.
+      replace (Z.of_N (len (field_tag tgc idx)) <=? 0)%Z with false by (symmetry; apply Z.leb_gt; lia).
+      rewrite N2Z.id, go_drop_app. cbn [bind].
+      unfold tbl'. rewrite (find_field_none fs' idx Hnot).
+      rewrite Hwt. set (R := flat_map (fun b0 : bytes => field_tag tgc idx ++ lenframe b0) bodies ++ more).
+      rewrite skip_exact_length by exact Hb. cbn [bind].
+      replace (append_varuint (len b) ++ b ++ R) with ((append_varuint (len b) ++ b) ++ R) by (rewrite <- app_assoc; reflexivity).
+      rewrite <- len_app, go_drop_app. cbn [bind]. unfold R. fold tbl'.
+      assert (Hfl : (length (flat_map (fun b0 => field_tag tgc idx ++ lenframe b0) bodies ++ more) < fuel')%nat).
+      { unfold e in Hfuel. cbn [flat_map] in Hfuel. rewrite <- !app_assoc in Hfuel. rewrite !app_length in Hfuel.
+        rewrite app_length. unfold len in Htg. lia. }
+      rewrite (struct_loop_fuel _ fuel' (S fuel')) by (exact Hfl || lia).
+      rewrite (IH tgc idx cur more _ (S fuel') Hwt Hidx Hnot Hall') by lia.
+      f_equal. unfold lenframe. rewrite !len_app. lia.
+  Qed.
+
+  (** ... so an unknown field of any codec of the fragment, the repeated forms
+      included, is skipped exactly *)
+  Lemma unknown_field_step_gen : forall c idx fv cur more consumed fuel,
+    rt_ok c -> (0 <= idx < 2305843009213693952)%Z -> wfv c fv -> fits c fv ->
+    ~ In idx (map (fun f => f_index f) fs') ->
+    let e := enc c fv (field_tag c idx) in
+    (length (e ++ more) < fuel)%nat ->
+    struct_loop tbl' fuel (e ++ more) consumed cur = struct_loop tbl' fuel more (consumed + len e) cur.
+  Proof.
+    intros c idx fv cur more consumed fuel Hok Hidx Hw Hf Hnot e Hfuel.
+    destruct c; try (apply unknown_field_step; [exact Hok|exact I|assumption..]).
+    - (* CSliceProto *)
+      cbn [rt_ok] in Hok. destruct Hok as (Hokc & Hwc & Htc).
+      cbn [wfv] in Hw. destruct fv as [ | | | | | | | | |l| | |]; try contradiction.
+      cbn [fits slice_elems] in Hf. unfold e in *. cbn [enc slice_elems] in *.
+      assert (Eq : flat_map (fun x => enc c x (field_tag (CSliceProto c) idx)) l
+                   = flat_map (fun b => field_tag (CSliceProto c) idx ++ lenframe b) (map (fun x => enc c x []) l)).
+      { clear Hfuel. induction l as [|x l IHl]; cbn [flat_map map]; [reflexivity|].
+        inversion Hw; inversion Hf; subst. rewrite IHl by assumption. f_equal.
+        assert (Etg : field_tag (CSliceProto c) idx = field_tag c idx) by (unfold field_tag; cbn [wire]; rewrite Hwc; reflexivity).
+        rewrite Etg. destruct (tagged_enc_shape c Hokc Htc x idx ltac:(assumption) ltac:(assumption)) as [ShL _].
+        destruct (ShL Hwc) as [Ee _]. exact Ee. }
+      rewrite Eq in *.
+      apply (unknown_frames (map (fun x => enc c x []) l) (CSliceProto c)); auto.
+      rewrite Forall_forall in *. intros b Hb. apply in_map_iff in Hb. destruct Hb as (x & <- & Hx).
+      destruct (tagged_enc_shape c Hokc Htc x idx (Hw x Hx) (Hf x Hx)) as [ShL _]. apply (ShL Hwc).
+    - (* CMapProto *)
+      cbn [wfv] in Hw. destruct fv as [ | | | | | | | | | |[es|]| |]; try contradiction.
+      destruct Hf as [_ Hfe]. cbn [map_entries_of] in Hfe. unfold e in *. cbn [enc] in *.
+      assert (Eq : flat_map (fun en : val * val => field_tag (CMapProto c1 c2) idx
+                     ++ lenframe ((if omit c1 (fst en) then [] else enc c1 (fst en) (field_tag c1 1))
+                                  ++ (if omit c2 (snd en) then [] else enc c2 (snd en) (field_tag c2 2)))) es
+                   = flat_map (fun b => field_tag (CMapProto c1 c2) idx ++ lenframe b) (map (entry_body c1 c2) es)).
+      { clear. induction es as [|en es IHl]; cbn [flat_map map]; [reflexivity|]. rewrite IHl. reflexivity. }
+      rewrite Eq in *.
+      apply (unknown_frames (map (entry_body c1 c2) es) (CMapProto c1 c2)); auto.
+      rewrite Forall_forall in *. intros b Hb. apply in_map_iff in Hb. destruct Hb as (en & <- & Hx). apply (Hfe en Hx).
   Qed.
 
   (** the fields of the written struct S, seen from S': each is either unknown
@@ -137,13 +222,14 @@ Section Evolve.
         rewrite <- app_assoc.
         destruct (partner f) as [g|] eqn:Ep.
         * destruct (partner_spec f g Ep) as [Hing Hig]. specialize (Hsame g eq_refl).
-          pose proof (field_step fs' Hnd' g (slot vs (f_slot f)) cur (flat_map (fenc vs) r ++ more) consumed fuel Hing) as FS.
-          rewrite Hsame, Hig in FS. fold tbl' in FS.
-          rewrite FS; auto; [|apply roundtrip; exact Hok].
+          pose proof (proj2 (roundtrip_gen (f_codec f) Hok) fs' g (slot vs (f_slot f)) cur (flat_map (fenc vs) r ++ more) consumed fuel
+                        Hnd' Hing Hsame) as FS.
+          rewrite Hig in FS. unfold stbl in FS. fold tbl' in FS.
+          rewrite FS; auto.
           rewrite IH; auto.
           -- rewrite len_app, N.add_assoc. reflexivity.
           -- rewrite app_length in Hfuel'. lia.
-        * rewrite (unknown_field_step (f_codec f) (f_index f) (slot vs (f_slot f)) cur (flat_map (fenc vs) r ++ more) consumed fuel Hok Hidx Hw Hfit (partner_none f Ep) Hfuel').
+        * rewrite (unknown_field_step_gen (f_codec f) (f_index f) (slot vs (f_slot f)) cur (flat_map (fenc vs) r ++ more) consumed fuel Hok Hidx Hw Hfit (partner_none f Ep) Hfuel').
           rewrite IH; auto.
           -- rewrite len_app, N.add_assoc. reflexivity.
           -- rewrite app_length in Hfuel'. lia.
